@@ -122,6 +122,8 @@ let pure file =
 (* ---- scheduler-driven cases:  model prog.. | sched.. | step ; step ; ..   (see harness/src/conc.rs)
         and list-valued functions:  @name args.. => results..                                   *)
 let replays : (string, (z list -> z list -> z list list)) Hashtbl.t = Hashtbl.create 8
+(* oracle-guided models also receive the recorded observations *)
+let guided : (string, (z list -> z list -> z list list -> z list list)) Hashtbl.t = Hashtbl.create 8
 let listfuns : (string, (z list -> z list)) Hashtbl.t = Hashtbl.create 8
 
 let ints_of (s : string) : BZ.t list =
@@ -172,8 +174,13 @@ let conc file =
            let prog = List.map BZ.of_string (List.tl hd_toks) in
            let sched = ints_of sch in
            let want = List.map ints_of (split_on ";" obs) in
-           let f = try Hashtbl.find replays model with Not_found -> failwith ("unknown model " ^ model) in
-           let got = List.map (List.map z_of_coq) (f (List.map coq_of_z prog) (List.map coq_of_z sched)) in
+           let got =
+             if Hashtbl.mem guided model then
+               let f = Hashtbl.find guided model in
+               List.map (List.map z_of_coq) (f (List.map coq_of_z prog) (List.map coq_of_z sched) (List.map (List.map coq_of_z) want))
+             else
+               let f = try Hashtbl.find replays model with Not_found -> failwith ("unknown model " ^ model) in
+               List.map (List.map z_of_coq) (f (List.map coq_of_z prog) (List.map coq_of_z sched)) in
            incr cases;
            Hashtbl.replace per_model model (1 + (try Hashtbl.find per_model model with Not_found -> 0));
            let rec cmp i g w =
@@ -213,6 +220,7 @@ let conc file =
 
 let () =
   Hashtbl.replace replays "ebr" ebr_replay;
+  Hashtbl.replace guided "rc" rc_replay;
   Hashtbl.replace replays "queue" queue_replay;
   Hashtbl.replace replays "list" list_replay;
   Hashtbl.replace replays "cell" cell_replay;
